@@ -63,7 +63,7 @@ PROPS = {
                                  "strict-release", "nodefault-debug", "nodefault-release"]},
     "C15": {"families": {"ops": None}, "tables": False},
     "C16": {"families": {"ord": None, "dual": ["dual2"]}, "tables": False},
-    "C17": {"families": {"target": None, "posarr": ["pah"]}, "tables": False},
+    "C17": {"families": {"target": None, "posarr": ["pah", "pa hs"]}, "tables": False},
     "C18": {"families": {"stream": None}, "tables": False},
     "C19": {"families": {"prim": None}, "tables": True},
     "C20": {"families": {"bs": None}, "tables": True},
